@@ -361,6 +361,7 @@ func runReal(c *Case) (rr realRun) {
 		}
 	}()
 	rec := triesim.NewRecEngine()
+	defer rec.Close() // one in-memory leveldb per case: closed when the case ends (restarts re-wrap the same engine)
 	var eng engine.Engine = rec
 	db := muxdb.NewWithEngine(eng, c.options())
 	fail := func(f string) {
@@ -910,7 +911,7 @@ func genCase(r *hx.Rand, idx int, thorough bool) *Case {
 	hot := min(r.Range(1, 3), na)
 	nblocks := r.Range(10, 60)
 	if thorough {
-		nblocks = r.Range(30, 300)
+		nblocks = r.Range(30, 150)
 	}
 	if c.Tie {
 		nblocks = r.Range(10, 30)
@@ -1181,7 +1182,7 @@ func main() {
 		}
 	}
 	r := hx.NewRand(ctx.Seed)
-	n := ctx.Scale(2000, 20000)
+	n := ctx.Scale(2000, 5000) // thorough: deeper trees (reads are quadratic in the number of blocks), sized for ~15-20 min
 	for done := 0; done < n; {
 		k := min(40, n-done)
 		batch := make([]*Case, k)
@@ -1190,8 +1191,11 @@ func main() {
 		}
 		runCases(ctx, batch)
 		done += k
+		if os.Getenv("VERIF_PROGRESS") != "" && done%200 == 0 {
+			fmt.Fprintf(os.Stderr, "c12: %d/%d cases\n", done, n)
+		}
 	}
-	ctx.Finish("block trees of 10-60 (thorough 30-300) blocks over 3-24 accounts x 2-12 storage keys with forks on recent blocks (conflict numbers), hot/cold "+
+	ctx.Finish("block trees of 10-60 (thorough 30-150) blocks over 3-24 accounts x 2-12 storage keys with forks on recent blocks (conflict numbers), hot/cold "+
 		"accounts (storage tries untouched for long; every third case 2-4 accounts whose secure keys share the first byte with create/destroy traffic), twin blocks "+
 		"(two states opened on the same head before either stages), on a MuxDB with real caches (TTL 0-32), hist partition factor 1-16, deduped factor 1/4/64/MaxUint32; "+
 		"interleaved reads of every committed root (accounts, storage, metadata, block-number index), restarts, and rounds of the real pruner over aligned "+
